@@ -1,4 +1,5 @@
 import PoxModel.Proofs.StrictMatch
+import PoxModel.Proofs.MatchV
 set_option linter.unusedSimpArgs false
 /-! What the proposed repairs C04-2 and C04-3 do to a match, in the standard's terms.
 
@@ -103,9 +104,8 @@ theorem prereq_mask (r : OfMatch) (h : PrereqExact r) : PrereqExact (maskUndef r
   exact h
 
 /-- masking makes every regular description one without undefined bits -/
-theorem matchCore_mask (r : OfMatch) (hp : PrereqExact r) (ht : r.nwTos % 4 = 0)
-    (hx : Spec.exact r = true → r.dlType = 0x0800 ∧ isL4Proto r.nwProto = true) : MatchCore (maskUndef r) :=
-  ⟨prereq_mask r hp, ht, maskUndef_width r, by rw [exact_mask]; exact hx⟩
+theorem matchCore_mask (r : OfMatch) (hp : PrereqExact r) (ht : r.nwTos % 4 = 0) : MatchCore (maskUndef r) :=
+  ⟨prereq_mask r hp, ht, maskUndef_width r⟩
 
 /-! ### `wildcards &= OFPFW_ALL` after `unpack(flow_mod=True)` -/
 
@@ -186,5 +186,98 @@ theorem ofWire_ofWirePlain (m : OfMatch) : ofWire (ofWirePlain m) = ofWire m := 
   calc ofWire (ofWirePlain m) = { m with wildcards := (ofWire (ofWirePlain m)).wildcards } := rfl
     _ = { m with wildcards := (ofWire m).wildcards } := by rw [hw]
     _ = ofWire m := rfl
+
+/-! ### C03's variants of `ofp_match`: no test tells `v.ofWire r` from HEAD's `ofWire` of the normalised record -/
+
+/-- same wildcard word, same values in the fields that are not wildcarded, same addresses -/
+structure SameViews (a b : OfMatch) : Prop where
+  w : a.wildcards = b.wildcards
+  g : ∀ f, a.wild f = false → a.get f = b.get f
+  s : a.nwSrc = b.nwSrc
+  d : a.nwDst = b.nwDst
+
+theorem SameViews.wild {a b : OfMatch} (h : SameViews a b) (f : Fld) : a.wild f = b.wild f := by simp [OfMatch.wild, h.w]
+
+theorem SameViews.symm {a b : OfMatch} (h : SameViews a b) : SameViews b a :=
+  ⟨h.w.symm, fun f hf => (h.g f (by rw [h.wild f]; exact hf)).symm, h.s.symm, h.d.symm⟩
+
+theorem SameViews.view {a b : OfMatch} (h : SameViews a b) (f : Fld) : a.view f = b.view f := by
+  unfold OfMatch.view
+  rw [← h.wild f]
+  cases hq : a.wild f
+  · simp [h.g f hq]
+  · simp
+
+theorem SameViews.srcView {a b : OfMatch} (h : SameViews a b) : a.srcView = b.srcView := by simp [OfMatch.srcView, h.w, h.s]
+theorem SameViews.dstView {a b : OfMatch} (h : SameViews a b) : a.dstView = b.dstView := by simp [OfMatch.dstView, h.w, h.d]
+
+theorem SameViews.matchesWith_left {a a' : OfMatch} (h : SameViews a a') (c : Bool) (b : OfMatch) :
+    matchesWith c a b = matchesWith c a' b := Variant.matchesWith_congr_left c a a' b h.w h.g h.s h.d
+theorem SameViews.matchesWith_right {b b' : OfMatch} (h : SameViews b b') (c : Bool) (a : OfMatch) :
+    matchesWith c a b = matchesWith c a b' := Variant.matchesWith_congr_right c a b b' h.w h.g h.s h.d
+
+theorem SameViews.eqMatch_left {a a' : OfMatch} (h : SameViews a a') (b : OfMatch) : eqMatch a b = eqMatch a' b := by
+  unfold eqMatch
+  rw [h.w, h.srcView, h.dstView]
+  congr 3
+  apply List.all_congr rfl
+  intro f _
+  rw [h.view f]
+theorem SameViews.eqMatch_right {b b' : OfMatch} (h : SameViews b b') (a : OfMatch) : eqMatch a b = eqMatch a b' := by
+  rw [eqMatch_comm, h.eqMatch_left, eqMatch_comm]
+
+theorem SameViews.overlapsWith_left {a a' : OfMatch} (h : SameViews a a') (b : OfMatch) :
+    Pox.FlowMod.overlapsWith a b = Pox.FlowMod.overlapsWith a' b := by
+  unfold Pox.FlowMod.overlapsWith
+  rw [h.srcView, h.dstView]
+  congr 2
+  apply List.all_congr rfl
+  intro f _
+  rw [h.view f]
+theorem SameViews.overlapsWith_right {b b' : OfMatch} (h : SameViews b b') (a : OfMatch) :
+    Pox.FlowMod.overlapsWith a b = Pox.FlowMod.overlapsWith a b' := by
+  unfold Pox.FlowMod.overlapsWith
+  rw [h.srcView, h.dstView]
+  congr 2
+  apply List.all_congr rfl
+  intro f _
+  rw [h.view f]
+
+namespace Variant
+variable (v : Variant)
+
+/-- the standard does not see the normalisation of wildcarded dl_type / nw_proto fields -/
+theorem subsumes_pre_left (a b : OfMatch) : Spec.subsumes (v.pre a) b = Spec.subsumes a b := by
+  rw [Bool.eq_iff_iff, Spec.subsumes_forall, Spec.subsumes_forall]; simp only [matchHdr_pre]
+theorem subsumes_pre_right (a b : OfMatch) : Spec.subsumes a (v.pre b) = Spec.subsumes a b := by
+  rw [Bool.eq_iff_iff, Spec.subsumes_forall, Spec.subsumes_forall]; simp only [matchHdr_pre]
+theorem overlaps_pre (a b : OfMatch) : Spec.overlaps (v.pre a) (v.pre b) = Spec.overlaps a b := by
+  rw [Bool.eq_iff_iff, Spec.overlaps_iff_exists, Spec.overlaps_iff_exists]; simp only [matchHdr_pre]
+theorem identical_pre (a b : OfMatch) : Spec.identical (v.pre a) (v.pre b) = Spec.identical a b := by
+  simp only [Spec.identical, subsumes_pre_left, subsumes_pre_right]
+
+theorem nwSpecified_pre (r : OfMatch) : Spec.nwSpecified (v.pre r) = Spec.nwSpecified r := by
+  simp only [Spec.nwSpecified, dlTypeIs_pre]
+theorem srcIgn_pre (r : OfMatch) : Spec.srcIgn (v.pre r) = Spec.srcIgn r := by
+  simp only [Spec.srcIgn, nwSpecified_pre]; rfl
+theorem dstIgn_pre (r : OfMatch) : Spec.dstIgn (v.pre r) = Spec.dstIgn r := by
+  simp only [Spec.dstIgn, nwSpecified_pre]; rfl
+
+/-- `is_wildcarded` does not look at the undefined wildcard bits -/
+theorem isWildcarded_masked (x : OfMatch) :
+    v.isWildcarded { x with wildcards := x.wildcards &&& FW_ALL } = v.isWildcarded x := by
+  have e : ∀ k : Nat, clearBits (x.wildcards &&& FW_ALL) k &&& FW_ALL = clearBits x.wildcards k &&& FW_ALL := by
+    intro k
+    apply Nat.eq_of_testBit_eq
+    intro i
+    simp only [Nat.testBit_and, testBit_clearBits]
+    cases x.wildcards.testBit i <;> cases FW_ALL.testBit i <;> cases k.testBit i <;> rfl
+  unfold Variant.isWildcarded OfMatch.isWildcarded
+  cases v.exactSig
+  · simp only [Bool.false_eq_true, if_false, Nat.and_assoc, Nat.and_self]
+  · simp only [if_true]
+    rw [e]
+
+end Variant
 
 end Pox.OF
